@@ -11,7 +11,7 @@ def check(pid, tier, replay):
             raise vlib.ToolError("StopReason.tla no longer refutes close-before-reason (vacuous model)")
         if vlib.tlc_violation(vlib.tlc("endpoint/StopReason", cfg="endpoint/StopReason_kf.cfg", wd=wd, workers=2, timeout=300)) != "C14_Completes":
             raise vlib.ToolError("StopReason.tla no longer reproduces the open finding (outcome wait on a one-shot the application keeps alive)")
-    endpoint.run(pid, tier, replay, ("C14_",), [("endpoint/StopReason", "endpoint/StopReason.cfg")], gens,
+    endpoint.run(pid, tier, replay, ("C14_", "C13_PeerError"), [("endpoint/StopReason", "endpoint/StopReason.cfg")], gens,
                  "reference conversation (open, begin, attach sender, attach receiver, two batchable sends) cut after each of its 0..6 steps by each of 11 failures (EOF, EOF without "
-                 "reading, reset, partial frame + EOF, close +-error, end +-error, detach of sender +-error, detach of receiver with error) with the step's own call, a send, a recv or "
+                 "reading, reset, partial frame + EOF, close +-error, end +-error, detach of sender +-error, detach of receiver with error) with the step's own call, a send, a recv, a local close / end / detach or "
                  "nothing pending; then every handle is used again and dropped; client and listener; distinct = distinct scripts")
